@@ -284,7 +284,7 @@ func c14() {
 	}
 
 	// (b) policies through the configuration path
-	nPol := run.N(600, 50000)
+	nPol := run.N(3000, 50000)
 	dir := os.Getenv("VERIF_BIN")
 	vlib.Parallel(nPol, func(i int) {
 		r := caseRand(run, 1+i)
